@@ -574,20 +574,22 @@ impl Disk
         let mut p = 0; // pairs written in current tslist sector
         let mut tslist = TrackSectorList::new();
         let mut tslist_ts = self.get_next_free_sector(true)?;
+        // everything that can still refuse the file (catalog full, no file type) is checked
+        // before the sector is reserved, so that a refusal leaves the VTOC as it was
+        let (ts,e) = self.get_next_directory_slot()?;
+        if fimg.fs_type.len()==0 {
+            return Err(Box::new(Error::Range));
+        }
         self.allocate_sector(tslist_ts[0],tslist_ts[1])?; // reserve this sector
         self.update_last_track(tslist_ts[0])?;
 
         // write the directory entry
-        let (ts,e) = self.get_next_directory_slot()?;
         let mut dir_buf = vec![0;256];
         self.read_sector(&mut dir_buf, ts, 0)?;
         let mut dir = DirectorySector::from_bytes(&dir_buf)?;
         dir.entries[e as usize].tsl_track = tslist_ts[0];
         dir.entries[e as usize].tsl_sector = tslist_ts[1];
-        match fimg.fs_type.len() {
-            0 => return Err(Box::new(Error::Range)),
-            _ => dir.entries[e as usize].file_type = fimg.fs_type[0],
-        } 
+        dir.entries[e as usize].file_type = fimg.fs_type[0];
         dir.entries[e as usize].name = string_to_file_name(name);
         dir.entries[e as usize].sectors = u16::to_le_bytes((tslist_sectors + data_sectors) as u16);
         self.write_sector(&dir.to_bytes(), ts, 0)?;
